@@ -8,6 +8,7 @@ flush function and every normal path from its send to the function's exit crosse
 (e) CLSE is sent only by _clse (then awaits CLSE) and by the drain generator in answer to the device's CLSE (then
 leaves); after a CLSE nothing is sent on that stream (typestate over every owner of a transaction object); list,
 stat and push close on every normal path, pull in `finally`.  Not decided: device-side orderings.
+_okay sends its message on every normal path.
 """
 import ast
 
